@@ -332,6 +332,49 @@ def reference(prog: Program, sname: str, cls: str, og: bool, flags: dict):
 START_KEY = {0: "zero_data", 1: "identity_data", None: None}
 
 
+def data_key_patterns(repo: Repo):
+    """Keys of the `data` table of series_computation: (constant keys, suffix patterns for input series)."""
+    sc = repo.find("algorithm_parsing::series_computation", RULE)
+    tables = [n for n in ast.walk(sc) if isinstance(n, ast.Assign) and norm(n.targets[0]) == "data" and isinstance(n.value, ast.Dict)]
+    if len(tables) != 1:
+        raise AnalysisError(RULE, "series_computation: `data` table not found")
+    consts, patterns = set(), set()
+    for k, v in zip(tables[0].value.keys, tables[0].value.values):
+        if isinstance(k, ast.Constant) and isinstance(k.value, str):
+            consts.add(k.value)
+        elif k is None and isinstance(v, ast.DictComp) and isinstance(v.key, ast.JoinedStr):
+            gens = v.generators
+            if not (isinstance(gens[0].iter, ast.Call) and norm(gens[0].iter.func) == "series.items"):
+                raise AnalysisError(RULE, "series_computation: data table comprehension not over series.items()")
+            name_var = norm(gens[0].target.elts[0])
+            extra = {}
+            for g in gens[1:]:
+                if isinstance(g.target, ast.Name) and isinstance(g.iter, (ast.Tuple, ast.List)) and all(
+                        isinstance(e, ast.Constant) and isinstance(e.value, str) for e in g.iter.elts):
+                    extra[g.target.id] = [e.value for e in g.iter.elts]
+                else:
+                    raise AnalysisError(RULE, "series_computation: data table comprehension form not understood")
+            combos = [{}]
+            for var, vals in extra.items():
+                combos = [dict(c, **{var: x}) for c in combos for x in vals]
+            for c in combos:
+                parts, ok_name = "", False
+                for piece in v.key.values:
+                    if isinstance(piece, ast.Constant):
+                        parts += piece.value
+                    elif isinstance(piece, ast.FormattedValue) and norm(piece.value) == name_var and not parts:
+                        ok_name = True
+                    elif isinstance(piece, ast.FormattedValue) and norm(piece.value) in c:
+                        parts += c[norm(piece.value)]
+                    else:
+                        raise AnalysisError(RULE, "series_computation: data key f-string not understood")
+                if ok_name:
+                    patterns.add(parts)
+        elif k is None:
+            raise AnalysisError(RULE, "series_computation: data table entry not understood")
+    return consts, patterns
+
+
 def rule_translation(rep: Report, repo: Repo, which=("main", "nonhermitian", "doc_example")):
     out = compiler_output(repo)
     programs = 0
@@ -378,14 +421,17 @@ def rule_translation(rep: Report, repo: Repo, which=("main", "nonhermitian", "do
             rep.check(g["start"] == want_start, RULE, f"{pname}::{sname} start value maps to data key `{want_start}`",
                       f"compiled key {g['start']!r}", loc)
             if isinstance(s.start, str):
-                # the key must exist in series_computation's data table: "<input>_0_data"
-                ok = s.start.endswith("_0") and s.start[:-2] in inputs
+                # the key must exist in series_computation's data table
+                consts, patterns = data_key_patterns(repo)
+                key = f"{s.start}_data"
+                ok = key in consts or any(key == n + p for n in inputs for p in patterns)
                 inst = f"{pname}::{sname} start = \"{s.start}\" names the zeroth order of an input series"
                 if ok:
-                    rep.ok(RULE, inst, "", loc)
+                    rep.ok(RULE, inst, f"data key `{key}` is defined (input key patterns <name> + {sorted(patterns)})", loc)
                 else:
-                    rep.fail(RULE, f"{pname}::{sname} start = \"{s.start}\" resolves to data key `{s.start}_data` which series_computation never defines",
-                             "documented form `start = \"series_name\"`; only `<input>_0_data` keys exist, so the series silently starts without pinned data", loc)
+                    rep.fail(RULE, f"{pname}::{sname} start = \"{s.start}\" resolves to data key `{key}` which series_computation never defines",
+                             f"documented form `start = \"series_name\"`; defined keys: {sorted(consts)} and <input> + {sorted(patterns)}, "
+                             "so the series silently starts without pinned data", loc)
             try:
                 gfunc = ast.parse(g["src"]).body[0]
             except SyntaxError as e:
